@@ -10,7 +10,7 @@ def U(**kw):
     d = dict(OM); d.update(LISTL); d.update(kw); return d
 COLS = [(1, "perm"), (2, "owner"), (3, "sizes"), (4, "ratio"), (5, "method"), (6, "stamp"), (7, "fullstamp"), (8, "name"), (9, "wname"), (10, "level"), (11, "totals"), (12, "footstamp")]
 HARNESSES = [
-    dict(name="col."+n, src="C19/cols.c", defines=["WHICH=%d" % w, "SL=%d" % (2 if n in ("name", "wname") else 3), "OUT_TOKENS=%d" % (16 if n in ("name", "wname") else 32), "OUT_MAXSTR=%d" % (12 if n == "perm" else 8), "VAS_MAX=16"] + (["SYM_METHOD_ANY=1"] if n == "method" else []), unwindset=U(**{"c19_compare.0": 33, "harness.0": 9, "lha_arch_vasprintf.0": 17}), units=LIST_UNITS, timeout=180, mem_gb=3,
+    dict(name="col."+n, src="C19/cols.c", defines=["WHICH=%d" % w, "SL=%d" % (2 if n in ("name", "wname") else 3), "OUT_TOKENS=%d" % (16 if n in ("name", "wname") else 32), "OUT_MAXSTR=%d" % (12 if n in ("perm", "method") else 8), "VAS_MAX=16"] + (["SYM_METHOD_ANY=1"] if n == "method" else []), unwindset=U(**{"c19_compare.0": 33, "harness.0": 9, "lha_arch_vasprintf.0": 17}), units=LIST_UNITS, timeout=180, mem_gb=3,
          backend=("cvc5" if n in ("ratio", "totals") else "default"))
     for w, n in COLS
 ]
@@ -32,8 +32,26 @@ HARNESSES += [
     for c, n in enumerate(CMDS)
 ]
 HARNESSES += [
-    dict(name="e2e."+n+v, src="C19/e2e.c", defines=["CMD=%d" % c, "NHDR=2", "SL=1", "OUT_TOKENS=512", "OUT_MAXSTR=12", "VAS_MAX=16"] + (["E2E_OS9=1"] if v else []),
-         unwindset=U(**{"c19_compare.0": 513, "harness.0": 3, "ref_listing.0": 3, "e2e_method.0": 7}), units=LIST_UNITS, timeout=400, mem_gb=5, object_bits=14,
-         flags=["--max-field-sensitivity-array-size", "512"])
+    dict(name="e2e."+n+v, src="C19/e2e.c", defines=["CMD=%d" % c, "E2E_QUIET=2", "NHDR=2", "SL=1", "OUT_TOKENS=160", "OUT_MAXSTR=12", "VAS_MAX=16"] + (["E2E_OS9=1"] if v else []),
+         unwindset=U(**{"c19_compare.0": 161, "ref_listing.0": 3, "e2e_method.0": 7}), units=LIST_UNITS, timeout=400, mem_gb=4, object_bits=14,
+         flags=["--max-field-sensitivity-array-size", "160"])
     for c, n in enumerate(CMDS) for v in (["", ".os9"] if c in (0, 3) else [""])
+] + [
+    dict(name="e2e."+n+".full", src="C19/e2e.c", defines=["CMD=%d" % c, "E2E_QUIET=0", "NHDR=2", "SL=1", "OUT_TOKENS=512", "OUT_MAXSTR=12", "VAS_MAX=16"],
+         unwindset=U(**{"c19_compare.0": 513, "ref_listing.0": 3, "e2e_method.0": 7}), units=LIST_UNITS, timeout=1800, tier="thorough", mem_gb=6, object_bits=14,
+         flags=["--max-field-sensitivity-array-size", "512"])
+    for c, n in enumerate(CMDS)
+]
+FL = {"match_glob.0": 5, "match_glob.1": 5, "match_glob": 5, "matches_filter.0": 3, "lha_filter_next_file.0": 4, "strlen.0": 5, "strcat.0": 5, "strcat.1": 5,
+      "ref_glob.0": 5, "ref_glob.1": 5, "ref_glob.2": 5, "ref_glob.3": 5, "ref_glob.4": 5, "ref_glob.5": 5, "ref_glob.6": 5, "ref_len.0": 6,
+      "harness.0": 5, "harness.1": 5, "harness.2": 4, "harness.3": 4, "harness.4": 3, "harness.5": 3, "harness.6": 3, "harness.7": 4}
+HARNESSES += [
+    dict(name="filter.sel", src="C19/filter.c", defines=["WHICH=1", "NM=2", "PATL=3", "NAML=3"], units=["src/filter.c: lha_filter_init, lha_filter_next_file, matches_filter"], timeout=300, mem_gb=4,
+         rename_defs={"src/filter.c": ["match_glob"]}, unwindset=FL,
+         bounds="2 members (path absent or 1 arbitrary byte, file name <= 2 arbitrary bytes), 0..2 wildcard arguments of <= 3 arbitrary bytes each",
+         stubs=["lha_reader_next_file: serves the members in order", "malloc/free: one 8-byte buffer", "match_glob: verdict of the reference matcher; checks it is given (argument, joined path+filename); justified by glob.match"],
+         claim="lha_filter_next_file returns exactly the members whose path+filename matches a wildcard argument, in archive order; all members when there are no arguments"),
+    dict(name="glob.match", src="C19/filter.c", defines=["WHICH=2", "NM=1", "PATL=3", "NAML=2"], units=["src/filter.c: match_glob"], timeout=300, mem_gb=4, unwindset=FL,
+         bounds="every pattern of <= 3 bytes against every name of <= 3 bytes (bytes 0x01..0xFF)",
+         stubs=[], claim="the real recursive match_glob agrees with an independent iterative matcher (* any run incl. empty, ? one character, literal otherwise, whole-name match)"),
 ]
